@@ -94,6 +94,42 @@ def first_diff(exp, got, es, gs):
     return "length/status differ: %d vs %d lines, status %s vs %s" % (len(el), len(gl), es, gs)
 
 
+def check_split(prog, rng, expected, cov):
+    """The same program with its declarations spread over 2-4 modules (a layout like any other): compiled with the files in
+    two rotations and in reverse, executed, compared with the reference interpreter."""
+    n_decl = len(prog.consts) + len(prog.structs) + len(prog.funcs)
+    if n_decl < 2:
+        return None
+    exp_out, exp_status = expected
+    mods, _info = gen_prog.split_modules(prog, rng, rng.randrange(2, min(4, n_decl) + 1))
+    files = [(fn, gen_prog.module_source(decls, imps)) for fn, decls, imps in mods]
+    k = rng.randrange(len(files))
+    for fs in (files[k:] + files[:k], list(reversed(files)), files):
+        kind, r = compile_sources(fs)
+        replay = {"files": fs, "expected_stdout": exp_out.decode("latin-1"), "expected_status": exp_status}
+        cov["cell:layout:modules"] = 1
+        if kind == "crash":
+            return {"sig": "compiler crash on well-formed program in several modules: " + r.signature(), "detail": r.to_json(), "replay": replay}
+        if kind == "panic":
+            return {"sig": "compiler panic on well-formed program in several modules: " + common.panic_signature(r), "detail": r, "replay": replay}
+        if r["status"] != "ok":
+            codes = sorted(set(e["code"] for e in r.get("errors", [])))
+            return {"sig": "well-formed program in several modules rejected: codes %s" % codes,
+                    "detail": {"errors": r.get("errors"), "status": r["status"], "error": r.get("error")}, "replay": replay}
+        res = common.run_lli(r["ir"], timeout=30)
+        if res["status"] == "timeout":
+            res = common.run_lli(r["ir"], timeout=90)
+            if res["status"] == "timeout":
+                return {"sig": "emitted code does not terminate", "detail": "lli > 90 s; R1 finished", "replay": replay}
+        if res["status"] == "signal":
+            return {"sig": "emitted code crashes: signal %s" % (-res["code"]), "detail": res["stderr"].decode("latin-1")[:500], "replay": replay}
+        if res["stdout"] != exp_out or res["code"] != exp_status:
+            what = "stdout" if res["stdout"] != exp_out else "exit status"
+            return {"sig": "wrong %s (program in several modules)" % what,
+                    "detail": first_diff(exp_out, res["stdout"], exp_status, res["code"]), "replay": replay}
+    return None
+
+
 def run_case(case):
     seed, i, nstyles = case
     prog, cov, rng = make_program(seed, i)
@@ -103,6 +139,8 @@ def run_case(case):
         return {"verdict": None, "cov": {"discarded_ub": 1, "discard:" + str(u)[:30]: 1}}
     cov = {("cell:" + k): 1 for k in cov}
     v = check_program(prog, rng, (out, status), nstyles)
+    if v is None and i % 3 == 0:
+        v = check_split(prog, rng, (out, status), cov)
     nontrivial = trace["loop_iters"] > 0 or trace["gotos"] > 0 or trace["calls"] > 1
     res = {"cov": cov, "nt": gen_prog.shape_hash(prog) if nontrivial else None}
     res["cov"]["programs"] = 1
